@@ -9,7 +9,7 @@ import os
 from sim.core.base import Check, RunResult, Streams, canon
 from sim.core.gateway import make_environ, call_app
 from sim.core.sched import BatonScheduler
-from sim.core.seams import SimClock
+from sim.core.seams import SimClock, EPOCH
 from sim.core import runner
 from sim.worlds import threads_app
 
@@ -311,6 +311,7 @@ class C12(Check):
         pre.sort(key=lambda x: x[0])
         return {'world': 'threads', 'seed': seed, 'config': cfg, 'requests': reqs, 'granularity': gran,
                 'order': order, 'preempts': pre, 'mode': mode, 'hot_funcs': hot_funcs, 'hot_bits': hot_bits,
+                'clock_start': EPOCH + 100.0 * (seed % (1 << 20)),
                 # cold: the threads hit a freshly built application whose very first requests these are
                 # (lazy initialisation races); the expected responses come from a warm twin
                 'cold': S['config'].random() < 0.3,
@@ -342,6 +343,18 @@ class C12(Check):
                     yield {'world': 'threads', 'seed': base_seed, 'config': cfg, 'requests': [ra, rb],
                            'granularity': gran, 'order': ['T0', 'T1'], 'preempts': [[k, 'T1']],
                            'mode': 'depth1'}
+        # the wall clock moves on (into the next second) at the very moment A is parked: whatever is derived from the
+        # time of day (identifiers, stamps) is read by A before and by B after the tick
+        tick_pairs = [('hi', 'hi'), ('post', 'missing')] if tier == 'quick' else [(a, a) for a in kinds]
+        for a, b in tick_pairs:
+            ra = make_request(a, 11, 'alice')
+            ra['name'] = 'T0'
+            rb = make_request(b, 22, 'bob')
+            rb['name'] = 'T1'
+            n = solo_steps(cfg, ra, 'line')
+            for k in range(1, n + 1):
+                yield {'world': 'threads', 'seed': base_seed, 'config': cfg, 'requests': [ra, rb], 'granularity': 'line',
+                       'order': ['T0', 'T1'], 'preempts': [[k, 'T1']], 'ticks': [[k, 1.0]], 'mode': 'depth1-tick'}
         # the very first requests of a freshly built application (lazy initialisation): A pre-empted at every line,
         # B (an unknown URL / a wrong method / a plain hit) served completely in between
         cold_pairs = [('hi', 'missing'), ('hi', 'm405'), ('missing', 'hi'), ('item_del', 'item_post'), ('ctx', 'boom')]
@@ -388,7 +401,8 @@ class C12(Check):
                    'order': names, 'preempts': pre, 'mode': 'marathon', 'requests': [], 'hot_funcs': hot, 'hot_bits': bits}
 
     def extra_plans(self, tier, base_seed):
-        for p in self.depth1_plans(tier, base_seed):
+        for j, p in enumerate(self.depth1_plans(tier, base_seed)):
+            p['clock_start'] = EPOCH + 100.0 * ((1 << 20) + j)
             yield p
         for p in self.marathon_plans(tier, base_seed):
             yield p
@@ -446,7 +460,9 @@ class C12(Check):
         # every clock read in the process is the simulated clock while the run lasts
         import time as _time
         real_time = _time.time
-        clock = SimClock()
+        # simulated time does not start over with every run of this process: whatever the tree under test keeps per
+        # process about "the current second" has never seen this run's time before
+        clock = SimClock(start=plan.get('clock_start', EPOCH))
         _time.time = clock.read
         try:
             return self._execute(plan, clock)
@@ -465,7 +481,9 @@ class C12(Check):
         all_ids = []
         all_guids = []
         for r in reqs:
-            do_request(app, r)
+            w0 = do_request(app, r)
+            all_ids.extend(w0['ids'])          # identifiers are unique within the PROCESS: every request counts
+            all_guids.extend(w0['guids'])
             s = do_request(app, r)
             expected[r['name']] = s
             all_ids.extend(s['ids'])
